@@ -60,6 +60,10 @@ def parse(text):
     try:
         return parser.BQLParser().parse(text, semantics=BQLSemantics())
     except tatsu.exceptions.ParseError as exc:
-        line = exc.tokenizer.line_info(exc.pos).line
+        try:
+            line = exc.tokenizer.line_info(exc.pos).line
+        except IndexError:
+            # The input text is empty and thus has no lines.
+            line = 0
         parseinfo = tatsu.infos.ParseInfo(exc.tokenizer, exc.item, exc.pos, exc.pos + 1, line, [])
         raise ParseError(parseinfo) from exc
